@@ -553,6 +553,23 @@ def _run_chunk_dyn(cases, unbuffered=False):
         files = [{'path': p, 'size': s} for p, s in zip(c['paths'], sizes)]
         names = root_names(c)
         tops = tuple(os.path.join(wd, nm) for nm in names)
+        # the spelling each root is handed to torf in.  alias_roots: the second root lives in <wd>/alt/T and is spelled
+        # <wd>/Lnk/../T with Lnk -> alt/sub: the OS resolves that to <wd>/alt/T, while its text normalises
+        # (os.path.normpath) to <wd>/T, the FIRST root - two directories that only a lexical shortcut confuses
+        spell = list(tops)
+        alias = bool(c.get('alias_roots')) and len(names) >= 2
+        for stale in ('alt', 'Lnk'):
+            q = os.path.join(wd, stale)
+            if os.path.islink(q):
+                os.unlink(q)
+            elif os.path.isdir(q):
+                import shutil
+                shutil.rmtree(q)
+        if alias:
+            os.makedirs(os.path.join(wd, 'alt', 'sub'))
+            os.symlink(os.path.join('alt', 'sub'), os.path.join(wd, 'Lnk'))
+            tops = (tops[0], os.path.join(wd, 'alt', names[0])) + tops[2:]
+            spell[1] = os.path.join(wd, 'Lnk', os.pardir, names[0])
         _stream.open = _dyn_open(tops, unbuffered)
         obs = {'rows': []}
         _ARMED.clear()
@@ -560,7 +577,8 @@ def _run_chunk_dyn(cases, unbuffered=False):
             states = disk_of_dyn(c)
             paths = []
             for r, nm in enumerate(names):
-                good = content.make_tree(wd, nm, files, seed=c['cseed'])
+                good = (content.make_tree(os.path.join(wd, 'alt'), names[0], files, seed=c['cseed']) if alias and r == 1
+                        else content.make_tree(wd, nm, files, seed=c['cseed']))
                 for j, f in enumerate(files):          # the disk state the history starts from
                     q = r * nf + j
                     pth = os.path.join(tops[r], *f['path'])
@@ -575,6 +593,9 @@ def _run_chunk_dyn(cases, unbuffered=False):
                         with open(pth, 'wb') as fh:
                             fh.write((good[j] + dyn_content(c, nf + q, max(0, int(st) - len(good[j]))))[:int(st)])
             index_of = {p: i for i, p in enumerate(paths)}
+            if alias:
+                for j, f in enumerate(files):
+                    index_of[os.path.join(spell[1], *f['path'])] = nf + j
             stream = b''.join(good)
             T = len(stream)
             t = content.make_torrent(torf, wd, names[0], files, L)
@@ -584,7 +605,7 @@ def _run_chunk_dyn(cases, unbuffered=False):
             ctor = c.get('ctor')
 
             def new_stream():
-                x = _stream.TorrentFileStream(t) if ctor is None else _stream.TorrentFileStream(t, content_path=tops[ctor])
+                x = _stream.TorrentFileStream(t) if ctor is None else _stream.TorrentFileStream(t, content_path=spell[ctor])
                 if c['cap'] != 10:
                     x.max_open_files = c['cap']
                 return x
@@ -603,8 +624,8 @@ def _run_chunk_dyn(cases, unbuffered=False):
                     obs['rows'].append({'res': ('none', None), 'nfd': _nfd(tops) - base, 'peak': 0})
                     continue
                 dec, plain = op_dec(op), op_plain(op)
-                cp = None if dec.get('cp') is None else tops[dec['cp']]
-                _ROOT[0] = tops[eff_root(c, op)]
+                cp = None if dec.get('cp') is None else spell[dec['cp']]
+                _ROOT[0] = spell[eff_root(c, op)]
                 _ARMED.clear()
                 if dec.get('fault'):
                     _ARMED.update(path=paths[eff_root(c, op) * nf + dec['fault'][0]], kind=dec['fault'][1], fired=False)
@@ -1053,6 +1074,15 @@ def gen_dyn_cases(ctx, rng, scale=1.0):
                 ops.append(o)
             cases.append(_mk_dyn(rng, L, sizes, ops, cap=cap, wrong=wrong, shape='dyn-random-' + shape, lay=lay,
                                  disk=disk, roots=roots, ctor=ctor))
+            if roots > 1 and not any(op_dec(o).get('fault') for o in ops if o[0] in READ_OPS) and rng.random() < 0.5:
+                cases[-1]['alias_roots'] = True
+    # ... and every third case of the exhaustive content-path block
+    nth = 0
+    for c in cases:
+        if c.get('shape') == 'dyn-exhaustive-content-path':
+            nth += 1
+            if nth % 3 == 0:
+                c['alias_roots'] = True
     return cases
 
 
@@ -1187,6 +1217,8 @@ def case_view(c):
         v['disk'] = disk_of_dyn(c)
         v['roots'] = dyn_roots(c)
         v['ctor'] = c.get('ctor')
+        if c.get('alias_roots'):
+            v['alias_roots'] = True
     return v
 
 
@@ -1428,8 +1460,10 @@ def evaluate_dyn(ctx, drv, cases):
             r = replies[k]
             contents = DynContents(c)
             key = ('dyn', c['L'], tuple(c['sizes']), c['cap'], tuple(c['wrong']), json.dumps(c['ops']),
-                   tuple(map(str, disk_of_dyn(c))), dyn_roots(c), c.get('ctor'))
+                   tuple(map(str, disk_of_dyn(c))), dyn_roots(c), c.get('ctor'), bool(c.get('alias_roots')))
             case = case_view(c)
+            if c.get('alias_roots'):
+                ctx.dist['dyn/second content root spelled <symlink>/../T (same text as root 0 after normpath, another directory)'] += 1
             if 'exc' in obs:
                 ctx.case(key=key, nontrivial=False, kind=c['shape'])
                 ctx.violation(f'history raised outside the operations: {obs["exc"]}', case, 'results', obs['exc'])
